@@ -1,3 +1,368 @@
 import B6.Driver.Common
-/-! Driver for C18 — stub (the check for this property is not built yet). -/
-def main : IO Unit := B6.Driver.run { σ := Unit, init := (), step := fun s _ _ => (s, .bad) }
+import B6.Model.ChangeExport
+/-!
+Driver for C18 (see `harness/cmd/c18/main.go` for the line protocol, `wire.go` for the encodings).
+
+State: the base features, the model's overlay state after the history so far, the model's state of the
+re-imported world, the first observation.  Per line the model recomputes the answer; the predicate is
+* `export`: the implementation's ranks rise strictly along every reference between two exported features and
+  the file was sorted by rank (so every reference precedes its referrer) — `propfail export-order`;
+* `import`: `Apply` succeeds — `propfail import-fails`, with `class=yaml-null-string` when the model's text
+  layer says a document carries a string `null` / `~` (yaml.v2 slip), `class=import-intermediate-state` when
+  the rejected feature's own references are all present and the rejection comes from validating a referrer
+  or from S2 in a world that never existed during the edit history; `propfail import-missing-reference`
+  when the model finds one of the feature's own references missing (the ordering lemma would be violated);
+* `obs2`: the whole observation equals `obs1` — `propfail reimport-differs`.
+-/
+open B6.Driver B6.Model.ChangeExport
+open B6.Model.Mutable (Key)
+namespace B6.Driver.C18
+
+/-! ### wire -> model -/
+
+def unhex (s : String) : Option String := do
+  let bs ← parseHex s
+  String.fromUTF8? (ByteArray.mk bs.toArray)
+
+def hexOf (s : String) : String := renderHex s.toUTF8.toList
+
+def parseNat (s : String) : Option Nat := s.toNat?
+def parseInt (s : String) : Option Int := s.toInt?
+
+/-- split at the first occurrence of a character -/
+def cut (c : Char) (s : String) : Option (String × String) :=
+  let rec go : List Char → List Char → Option (String × String)
+    | [], _ => none
+    | x :: r, acc => if x == c then some (String.ofList acc.reverse, String.ofList r) else go r (x :: acc)
+  go s.toList []
+
+def parseAtom (w : String) : Option Atom := do
+  let (kind, rest) ← cut ':' w
+  match kind with
+  | "s" => (unhex rest).map Atom.str
+  | "i" => (parseInt rest).map Atom.int
+  | "f" => some (.flt rest)
+  | "p" => match rest.splitOn ":" with
+    | [a, b] => some (.pt a b)
+    | _ => none
+  | "id" => match rest.splitOn ":" with
+    | [t, ns, v] => do
+      let t ← parseNat t
+      let ns ← unhex ns
+      let v ← parseNat v
+      pure (.fid t ns v)
+    | _ => none
+  | "x" => (unhex rest).map Atom.other
+  | _ => none
+
+def parseV (w : String) : Option V :=
+  if w.startsWith "l:" then
+    let rest := sdrop w 2
+    if rest.isEmpty then some (.list []) else (rest.splitOn "|").mapM parseAtom |>.map V.list
+  else (parseAtom w).map V.atom
+
+def parseTag (w : String) : Option Tag := do
+  let (k, v) ← cut '=' w
+  let v ← parseV v
+  pure (k, v)
+
+def parseTags (w : String) : Option (List Tag) :=
+  if w.isEmpty then some [] else (w.splitOn "&").mapM parseTag
+
+def parseIds (w : String) : Option (List Nat) :=
+  if w.isEmpty then some [] else (w.splitOn "+").mapM parseNat
+
+def parsePoly (w : String) : Option Poly :=
+  if w.startsWith "i" then (parseIds (sdrop w 1)).map Poly.ids
+  else if w.startsWith "p" then
+    ((sdrop w 1).splitOn "/").mapM (fun (l : String) => (l.splitOn "~").mapM fun (v : String) =>
+      match v.splitOn "_" with
+      | [a, b] => some (a, b)
+      | _ => none) |>.map Poly.lit
+  else none
+
+def parseBody (w : String) : Option Body :=
+  if w == "g" then some .generic
+  else if w.startsWith "a:" then
+    let rest := sdrop w 2
+    if rest.isEmpty then some (.area []) else (rest.splitOn ";").mapM parsePoly |>.map Body.area
+  else if w.startsWith "r:" then
+    let rest := sdrop w 2
+    if rest.isEmpty then some (.relation []) else
+      (rest.splitOn ",").mapM (fun m => do
+        let (id, role) ← cut '~' m
+        let id ← parseNat id
+        let role ← unhex role
+        pure (id, role)) |>.map Body.relation
+  else if w.startsWith "c:" then
+    let rest := sdrop w 2
+    if rest.isEmpty then some (.collection []) else
+      (rest.splitOn ",").mapM (fun e => do
+        let (k, v) ← cut '>' e
+        let k ← parseAtom k
+        let v ← parseAtom v
+        pure (k, v)) |>.map Body.collection
+  else none
+
+def parseFeat (w : String) : Option Feat :=
+  match w.splitOn "!" with
+  | [id, body, tags] => do
+    let id ← parseNat id
+    let body ← parseBody body
+    let tags ← parseTags tags
+    pure ⟨id, tags, body⟩
+  | _ => none
+
+/-! ### model -> wire -/
+
+def atomW : Atom → String
+  | .str s => "s:" ++ hexOf s
+  | .int n => "i:" ++ toString n
+  | .flt b => "f:" ++ b
+  | .pt a b => "p:" ++ a ++ ":" ++ b
+  | .fid t ns v => s!"id:{t}:{hexOf ns}:{v}"
+  | .other s => "x:" ++ hexOf s
+
+def valW : V → String
+  | .atom a => atomW a
+  | .list as => "l:" ++ "|".intercalate (as.map atomW)
+
+def insertTag (t : Tag) : List Tag → List Tag
+  | [] => [t]
+  | u :: r => if t.1 < u.1 then t :: u :: r else u :: insertTag t r
+
+/-- stable sort by key (`sort.SliceStable`) -/
+def sortTags (ts : List Tag) : List Tag := ts.reverse.foldl (fun acc t => insertTag t acc) []
+
+def tagsW (ts : List Tag) : String := "&".intercalate ((sortTags ts).map fun t => t.1 ++ "=" ++ valW t.2)
+
+def polyW : Poly → String
+  | .ids l => "i" ++ "+".intercalate (l.map toString)
+  | .lit loops => "p" ++ "/".intercalate (loops.map fun l => "~".intercalate (l.map fun v => v.1 ++ "_" ++ v.2))
+
+def bodyW : Body → String
+  | .generic => "g"
+  | .area ps => "a:" ++ ";".intercalate (ps.map polyW)
+  | .relation ms => "r:" ++ ",".intercalate (ms.map fun m => s!"{m.1}~{hexOf m.2}")
+  | .collection es => "c:" ++ ",".intercalate (es.map fun e => atomW e.1 ++ ">" ++ atomW e.2)
+
+def featW (f : Feat) : String := s!"{f.id}!{bodyW f.body}!{tagsW f.tags}"
+
+def insertNat (x : Nat) : List Nat → List Nat
+  | [] => [x]
+  | y :: r => if x ≤ y then x :: y :: r else y :: insertNat x r
+
+def sortNats (l : List Nat) : List Nat := l.foldl (fun acc x => insertNat x acc) []
+
+def insertStr (x : String) : List String → List String
+  | [] => [x]
+  | y :: r => if x ≤ y then x :: y :: r else y :: insertStr x r
+
+def sortStrs (l : List String) : List String := l.foldl (fun acc x => insertStr x acc) []
+
+def modW (e : Key × VMod) : String :=
+  match e.2 with
+  | .set v => e.1 ++ "=" ++ valW v
+  | .del => e.1 ++ "=-"
+
+def stateW (s : St) : String :=
+  let ids := sortNats (Model.Mutable.AMap.keys s.mods)
+  let ms := ids.filterMap fun id =>
+    let m := modsOf s.mods id
+    if m.isEmpty then none else some (s!"{id}!" ++ "&".intercalate (sortStrs (m.map modW)))
+  let fs := (sortNats (Model.Mutable.AMap.keys s.feats)).filterMap fun id => (Model.Mutable.AMap.get s.feats id).map featW
+  "mods:" ++ renderList ms ++ " feats:" ++ renderList fs
+
+def isUnknown : Except TextErr Doc → Bool
+  | .error .unknown => true
+  | _ => false
+
+def docW : Doc → String
+  | .mods id add rm => s!"M{id}!{tagsW add}!" ++ "&".intercalate (sortStrs rm)
+  | .feat f => "F" ++ featW f
+
+/-! ### the family -/
+
+structure S where
+  base : List Feat := []
+  st : St := St.empty
+  imp : St := St.empty
+  obs1 : String := ""
+  /-- the known class of the import failure of this case, if any -/
+  cls : Option String := none
+
+def judge (impl model : String) : Verdict := if impl == model then .ok else .diff model
+
+def ansOf (err : Bool) : String := if err then "err" else "ok"
+
+/-- the A part of an observation: for the ids the implementation lists, what the model's world shows -/
+def obsA (b : Base) (s : St) (implA : String) (baseIds : List Nat) : String :=
+  let toks := words implA
+  let each := sortNats ((baseIds ++ Model.Mutable.AMap.keys s.feats).eraseDups.filter fun id => (s.find b id).isSome)
+  let parts := toks.filterMap fun t =>
+    if t.startsWith "each:" then some ("each:" ++ ",".intercalate (each.map toString))
+    else
+      let idStr := String.ofList (t.toList.takeWhile Char.isDigit)
+      match idStr.toNat? with
+      | none => none
+      | some id => match s.find b id with
+        | some f => some (featW f)
+        | none => some s!"{id}-"
+  " ".intercalate parts
+
+/-- model documents (after the text layer) in the canonical order of the harness; `none` in the list =
+undecodable from there -/
+def modelDocs (s : St) (ord : List Nat) : List (Except TextErr Doc) :=
+  let ms := sortNats (Model.Mutable.AMap.keys s.mods)
+  let mdocs := exportMods (ms.filterMap fun id => (Model.Mutable.AMap.get s.mods id).map fun m => (id, m))
+  (mdocs ++ exportFeats s ord).map textDoc
+
+def parseRanks (w : String) : Option (List (Nat × Nat)) := do
+  let ws ← parseBracket w
+  ws.mapM fun e => do
+    let (a, b) ← cut ':' e
+    let a ← parseNat a
+    let b ← parseNat b
+    pure (a, b)
+
+def step (σ : S) (op impl : String) : S × Verdict :=
+  let b := baseOf σ.base
+  match words op with
+  | ["reset"] => ({}, judge impl "ok")
+  | ["base", w] =>
+    match parseFeat w with
+    | none => (σ, .bad)
+    | some f => if impl == "ok" then ({ σ with base := σ.base ++ [f] }, .ok) else (σ, judge impl "ok")
+  | ["addtag", id, kv] =>
+    match parseNat id, parseTag kv with
+    | some id, some t =>
+      let model := ansOf (σ.st.tagErr b id)
+      ({ σ with st := if impl == "ok" then σ.st.addTag b id t else σ.st }, judge impl model)
+    | _, _ => (σ, .bad)
+  | ["rmtag", id, k] =>
+    match parseNat id with
+    | some id =>
+      let model := ansOf (σ.st.tagErr b id)
+      ({ σ with st := if impl == "ok" then σ.st.removeTag b id k else σ.st }, judge impl model)
+    | none => (σ, .bad)
+  | ["addfeature", w] =>
+    match parseFeat w with
+    | none => (σ, .bad)
+    | some f =>
+      let v := σ.st.validateAdd b f
+      let σ' := { σ with st := if impl == "ok" then σ.st.addFeature b f else σ.st }
+      match v with
+      | .ok => (σ', judge impl "ok")
+      | .s2 => (σ', if impl == "ok" || impl == "err" then .ok else .diff "ok|err")
+      | _ => (σ', judge impl "err")
+  | ["state1"] => (σ, judge impl (stateW σ.st))
+  | "export" :: _ =>
+    match parseRanks (sdrop op 7) with
+    | none => (σ, .bad)
+    | some ranks =>
+      let ord := ranks.map (·.1)
+      -- predicate on the implementation's ranks: strictly larger for the referenced feature
+      let rankOf := fun id => (Model.Mutable.AMap.get ranks id).getD 0
+      -- (a feature that is its own transitive referrer — relations / collections containing each other —
+      -- cannot be ordered and is never validated)
+      let bad := ord.any fun id => match Model.Mutable.AMap.get σ.st.feats id with
+        | some f => !(closure σ.st σ.st.fuel id).contains id &&
+            (refsOf f).any fun r => Model.Mutable.AMap.contains ranks r && !(rankOf r > rankOf id)
+        | none => false
+      if bad || impl.endsWith "unsorted" then (σ, .propfail "export-order") else
+      let docs := modelDocs σ.st ord
+      if docs.any isUnknown then (σ, .bad) else
+      let good := docs.takeWhile (fun d => match d with
+        | .ok _ => true
+        | .error _ => false)
+      let text := renderList (good.filterMap fun d => match d with
+        | .ok d => some (docW d)
+        | .error _ => none) ++ (if good.length < docs.length then " undecodable" else "")
+      -- the model's ranks and the set of exported features
+      let mranks := ord.map fun id => (id, rank σ.st id)
+      let mset := sortNats (Model.Mutable.AMap.keys σ.st.feats)
+      if mset != sortNats ord then (σ, .diff ("feats " ++ toString mset))
+      else if mranks != ranks then (σ, .diff ("ranks " ++ toString mranks))
+      else (σ, judge impl text)
+  | "import" :: ordW =>
+    match ordW.mapM parseNat with
+    | none => (σ, .bad)
+    | some ord =>
+      let ms := sortNats (Model.Mutable.AMap.keys σ.st.mods)
+      let mdocs := exportMods (ms.filterMap fun id => (Model.Mutable.AMap.get σ.st.mods id).map fun m => (id, m))
+      let nm := mdocs.length
+      let docs := (mdocs ++ exportFeats σ.st ord).map textDoc
+      if docs.any isUnknown then (σ, .bad) else
+      -- run the documents; stop where the implementation stopped
+      let stopAt : Option String :=
+        if impl == "ok" then none else some (sdrop impl 4)
+      let rec run (s : St) (k : Nat) : List (Except TextErr Doc) → St × Option (String × String)
+        | [] => (s, none)
+        | .error _ :: _ =>
+          let at_ := if k < nm then s!"mod{k}" else toString (ord.getD (k - nm) 0)
+          (s, some (at_, "undecodable"))
+        | .ok d :: rest =>
+          match d with
+          | .mods .. => match importDoc b (fun _ _ => true) s d with
+            | some s' => run s' (k + 1) rest
+            | none => (s, none)
+          | .feat f =>
+            let v := s.validateAdd b f
+            let here := toString f.id
+            if stopAt == some here then
+              (s, some (here, match v with
+                | .ok => "unexplained"
+                | .missing => "missing"
+                | .fail => "own"
+                | .referrer => "referrer"
+                | .s2 => "s2"))
+            else if v == .missing || v == .fail || v == .referrer then (s, some (here, "model-rejects"))
+            else run (s.addFeature b f) (k + 1) rest
+      let (s', stop) := run St.empty 0 docs
+      match stop with
+      | none => ({ σ with imp := s', cls := none }, judge impl "ok")
+      | some (at_, why) =>
+        if impl != "err@" ++ at_ then ({ σ with imp := s' }, .diff ("err@" ++ at_ ++ " " ++ why))
+        else
+          let cls := match why with
+            | "undecodable" => some "yaml-null-string"
+            | "referrer" => some "import-intermediate-state"
+            | "s2" => some "import-intermediate-state"
+            | _ => none
+          let clause := if why == "missing" then "import-missing-reference" else "import-fails"
+          ({ σ with imp := s', cls := cls },
+            .propfail (clause ++ (match cls with
+              | some c => " class=" ++ c
+              | none => "")))
+  | ["state2"] => (σ, judge impl (stateW σ.imp))
+  | ["obs1"] =>
+    let a := (impl.splitOn " || ").headD ""
+    ({ σ with obs1 := impl }, judge a (obsA b σ.st a (σ.base.map (·.id))))
+  | ["obs2"] =>
+    if impl != σ.obs1 then
+      (σ, .propfail ("reimport-differs" ++ (match σ.cls with
+        | some c => " class=" ++ c
+        | none => "")))
+    else
+      let a := (impl.splitOn " || ").headD ""
+      (σ, judge a (obsA b σ.imp a (σ.base.map (·.id))))
+  | ["infer", h] =>
+    match unhex h with
+    | none => (σ, .bad)
+    | some s => match infer s with
+      | .ok v => (σ, judge impl (valW v))
+      | _ => (σ, .bad)
+  | ["roundtrip", w] =>
+    match parseV w with
+    | none => (σ, .bad)
+    | some v => match reinfer v with
+      | none => (σ, judge impl "err")
+      | some (.ok v') => (σ, judge impl (valW v'))
+      | some _ => (σ, .bad)
+  | _ => (σ, .bad)
+
+def family : Family := { σ := S, init := {}, step := step }
+
+end B6.Driver.C18
+
+def main : IO Unit := B6.Driver.run B6.Driver.C18.family
